@@ -25,6 +25,9 @@ def generate(ctx):
     cases = []
     for i in range(n):
         names = ctx.rng.choice(["plain", "plain", "int"])
+        if i % 6 == 2:       # several ordinary states densely connected: eliminating one creates edges parallel to existing ones
+            cases.append({"op": "to_regex", "fa": falib.rand_elim_fa(ctx.rng, names="plain" if names == "plain" else "int")})
+            continue
         if i % 12 == 7:      # an automaton without any input symbol: every transition is an epsilon move
             spec = falib.rand_fa(ctx.rng, kind="enfa", profile="epsonly", names=names, max_states=4)
         else:
